@@ -15,7 +15,7 @@ for DIFF in "$DIR"/r*.diff; do
   mkdir -p "$D/v"; cp /verif/known_findings.json "$D/v/"
   ALARMS=""
   for P in $PROPS; do
-    OUT=$(IVG_REPO="$D/mut" /verif/bin/ivgsa check -property "$P" -verif "$D/v" 2>&1); RC=$?
+    OUT=$(IVG_REPO="$D/mut" ${IVGSA:-/verif/bin/ivgsa} check -property "$P" -verif "$D/v" 2>&1); RC=$?
     if [ $RC -ne 0 ]; then
       ALARMS="$ALARMS $P"
       echo "    [$K/$P] rc=$RC $(echo "$OUT" | grep -E '^   (VIOLATED|UNDECIDED)' | head -3 | cut -c1-260 | tr '\n' '|')"
